@@ -17,7 +17,7 @@ Observed(m, r) ==
 StepOfImpl(m, r) == LET s == M!CallStep(m, r) IN
                     IF s.ok THEN [ok |-> Observed(s.om, r), st |-> s.om] ELSE [ok |-> FALSE, st |-> m]
 TraceLog == ndJsonDeserialize(IOEnv.TRACE)
-T == INSTANCE TraceBase WITH Log <- TraceLog, InitSt <- <<>>, StepOf <- StepOfImpl
+T == INSTANCE TraceBase WITH Log <- TraceLog, InitSt <- <<>>, StepOf <- StepOfImpl, ResyncAtNew <- TRUE
 Spec == T!Spec
 Done == T!Done
 ====
